@@ -159,3 +159,38 @@ def oriented(cmp, left_pred):
     if pr and not pl:
         return ast.Compare(left=r, ops=[_FLIPOP[type(cmp.ops[0])]()], comparators=[l])
     return None
+
+
+def inline_temporaries(stmts, keep=()):
+    """statement list with every single-assignment, single-use local whose value is a call-free or numpy-only expression substituted into the NEXT statement
+    (so `t = e ; y = f(t)` and `y = f(e)` read alike).  Works on copies."""
+    import copy
+    stmts = [copy.deepcopy(x) for x in stmts]
+    changed = True
+    while changed:
+        changed = False
+        uses, stores = {}, {}
+        for st in stmts:
+            for n in ast.walk(st):
+                if isinstance(n, ast.Name):
+                    if isinstance(n.ctx, ast.Load):
+                        uses[n.id] = uses.get(n.id, 0) + 1
+                    else:
+                        stores[n.id] = stores.get(n.id, 0) + 1
+        for i in range(len(stmts) - 1):
+            a, b = stmts[i], stmts[i + 1]
+            if isinstance(a, ast.Assign) and len(a.targets) == 1 and isinstance(a.targets[0], ast.Name):
+                t = a.targets[0].id
+                pure = all(not isinstance(n, ast.Call) or dump(n.func).startswith(("numpy.", "np.", "len", "range")) for n in ast.walk(a.value))
+                here_ = [n for n in ast.walk(b) if isinstance(n, ast.Name) and n.id == t and isinstance(n.ctx, ast.Load)]
+                if t not in keep and pure and stores.get(t, 0) == 1 and uses.get(t, 0) == 1 and len(here_) == 1:
+                    val = a.value
+
+                    class Sub(ast.NodeTransformer):
+                        def visit_Name(self, n):
+                            return val if (n.id == t and isinstance(n.ctx, ast.Load)) else n
+                    stmts[i + 1] = Sub().visit(b)
+                    del stmts[i]
+                    changed = True
+                    break
+    return stmts
